@@ -263,7 +263,7 @@ class Shelxfile():
                 if restraint_atom in ('>', '<', '=') or '$' in restraint_atom:
                     # Range operators, element wildcards ($C) and symmetry equivalents (C1_$1) are not atom names.
                     continue
-                if (restraint.residue_class or sum(restraint.residue_number) > 0) and '_' not in restraint_atom:
+                if restraint.residue_number != [0] and '_' not in restraint_atom:
                     for num in restraint.residue_number:
                         self.does_atom_exist(f'{restraint_atom}_{num}', bad_atoms, f'{restraint_atom}_{num}')
                 elif '_' in restraint_atom:
